@@ -12,6 +12,25 @@ CLAIMED = {
          "DESIGN.md §4 C04"),
 }
 
+CLAIMED.update({
+ "C01": ("invariant walker over the live session after every engine call of generated + directed scenarios",
+         "Runtime monitoring: generated flow graphs (cycles, self/mutually entering sub-flows, terminal enters, empty flows), contacts, triggers and resume histories are executed by the real engine under virtual clock/UUID/random sources; after every NewSession/Resume that returns err==nil a walker checks every clause of the statement on the live session (kept alive or re-read from JSON at seeded waits). Held on the executions observed only.",
+         "Trusts: the public accessors (Session.Runs, Run.Path/Events, Flow.GetNode, Sprint.Events) as the observation boundary; event identity (same Go objects in run and sprint lists).",
+         "DESIGN.md §4 C01"),
+ "C03": ("offline replay checker over the recorded sprint log + differential check of modifiers.Apply applied twice",
+         "Runtime monitoring: an independent replay model applies the contact events of every sprint to the contact JSON before and must reproduce the contact JSON after (engine part); every modifier type is applied twice to generated contacts and 'modified' <=> contact changed <=> change event, replay, and second application is a no-op are checked (direct part). Held on the executions observed only.",
+         "Trusts: json.Marshal(contact) as the contact's observable state; groups compared as a set, URNs as an ordered list; both applications of a modifier are made at the same clock instant.",
+         "DESIGN.md §4 C03"),
+ "C05": ("crash/hang sanitizer (recover + virtual-clock step budget + stage-2 wall clock) and limit monitors over the sprint log",
+         "Runtime monitoring: loop-heavy generated graphs and directed adversarial flows are run under boundary engine options with long multi-byte inputs; panics, exceeding the logical step budget of the virtual clock, a confirmed 60 s stage-2 timeout, more new steps than MaxStepsPerSprint, limit failures that do not fail the session, too many accepted resumes and over-long / invalid UTF-8 texts in events, results and the contact are violations. Held on the executions observed only.",
+         "Trusts: dates.Now() is called at least once per created step (virtual-time watchdog); wall clock only in the stage-2 confirmation (margin >= 10^4 over the normal cost).",
+         "DESIGN.md §4 C05"),
+ "C06": ("invariant hook on the live contact after every engine call and every modifiers.Apply, oracle = the real query evaluator",
+         "Runtime monitoring: for generated query-based groups over every queryable property and contacts with right or wrong stored membership, after every engine call and every directly applied modifier membership of every query group must equal (active && query matches), a contact that became non-active is in no static group, and the net group delta equals the net effect of the contact_groups_changed events. Held on the executions observed only.",
+         "Trusts: Group.CheckQueryBasedMembership / contactql.EvaluateQuery as oracle (their own consistency is C15); membership accepted if it matches under the session environment or the merged (contact timezone) environment.",
+         "DESIGN.md §4 C06"),
+})
+
 NOT_YET = {}
 
 def main():
